@@ -34,7 +34,8 @@ CONFIG = {
     'shards': {'quick': 16, 'thorough': 16},
     'min_nontrivial': {'quick': 600, 'thorough': 4000},
     'timeout': {'quick': 1200, 'thorough': 14400},
-    'required_counters': ['networks_compared', 'ring_text_rule_networks'],
+    'required_counters': ['networks_compared', 'ring_text_rule_networks',
+                          'entry: text', 'entry: mols', 'entry: objects'],
 }
 ANCHORS = [
     'pgradd.RDkitWrapper.GenRxnNet:GenerateRxnNet',
@@ -195,9 +196,33 @@ def check_case(ctx, case):
         ctx.skip('closure above 250 species')
         return
     counter = {'n': 0, 'budget': 50 * napp + 50}
-    real_rules = [CountingRule(make_rule(kind, n), counter) for n in names]
+    entry = case.get('entry', 'objects')
+    import pgradd.RDkitWrapper.GenRxnNet as G
+    saved = (G.Read, G.ReactionFromSmarts)
+    if entry == 'objects':
+        real_rules = [CountingRule(make_rule(kind, n), counter)
+                      for n in names]
+        real_seeds = list(seeds)
+    else:
+        # the documented entry: rules handed over as TEXT (RING text, or
+        # reaction SMARTS through the function's fallback).  The two names
+        # the function resolves them with are wrapped in its namespace so
+        # that the rule objects it builds itself are counted as well.
+        table = SMARTS_RULES if kind == 'smarts' else RING_RULES
+        real_rules = [table[n] for n in names]
+        G.Read = lambda t: CountingRule(saved[0](t), counter)
+        G.ReactionFromSmarts = lambda t: CountingRule(saved[1](t), counter)
+        real_seeds = list(seeds)
+        if entry == 'mols':
+            real_seeds = [Chem.MolFromSmiles(x) for x in seeds]
+        if entry == 'single':
+            real_seeds = seeds[0]
+            real_rules = real_rules[0]
     try:
-        o = observe(GenerateRxnNet, list(seeds), real_rules)
+        try:
+            o = observe(GenerateRxnNet, real_seeds, real_rules)
+        finally:
+            G.Read, G.ReactionFromSmarts = saved
     except StepBudgetExceeded:
         ctx.violation('network generation did not terminate within 50x the '
                       'reference number of rule applications', case,
@@ -249,6 +274,9 @@ def check_case(ctx, case):
                           {'seed': s, 'returned': smiles})
             return
     ctx.count('networks_compared')
+    ctx.count('entry: ' + entry)
+    if entry != 'objects' and counter['n'] == 0:
+        ctx.count('text_entry_rule_objects_not_counted')
     if kind == 'ring':
         ctx.count('ring_text_rule_networks')
     if len(ref) >= 3:
@@ -274,7 +302,12 @@ def cases(ctx):
             subsets += [list(c) for c in itertools.combinations(pool, k)]
         for ss in seedsets:
             for rs in subsets:
-                out.append({'seeds': ss, 'kind': kind, 'rules': rs})
+                k = len(out)
+                entry = ('objects', 'text', 'mols', 'text', 'single')[k % 5]
+                if entry == 'single' and (len(ss) != 1 or len(rs) != 1):
+                    entry = 'text'
+                out.append({'seeds': ss, 'kind': kind, 'rules': rs,
+                            'entry': entry})
     return out
 
 
